@@ -298,7 +298,7 @@ ROLES = [':ARG0', ':ARG1', ':ARG0-of', ':ARG1-of', ':op1', ':op2', ':op10', ':mo
          ':polarity', ':quant', ':consist-of', ':consist-of-of', ':prep-on-behalf-of', ':a', ':a-of', ':b-of',
          ':x-y', ':', ':-of']
 ATOMS = ['x', 'y', '-', '"s t"', '"(~)"', '1', '2.5', 'dog', '"a~b"', '7', '+']
-ALNS = ['~1', '~e.2', '~e.2,3', '~E.1', '~x7', '~0,10']
+ALNS = ['~1', '~e.2', '~e.2,3', '~E.1', '~x7', '~0,10', '~7,2', '~e.12,10,11', '~9,4,4']
 BAD_ALNS = ['~e.01', '~01', '~e.1,02', '~~1']
 
 
@@ -411,7 +411,9 @@ def _impl_text(node, meta, m):
         t = c.parse(s)
         reparsed_same = (t.node == node)
         got = c.encode(c.decode(s), indent=indent)
-        want = c.format(Tree(drop_empty(t.node), metadata=t.metadata), indent=indent)
+        # the normal form is computed from the GENERATED tree and metadata (not from what parse returned), so a
+        # key/value lost or altered by the parser shows as a difference
+        want = c.format(Tree(drop_empty(node if reparsed_same else t.node), metadata=dict(meta)), indent=indent)
         out.append((indent, s, reparsed_same, t.node, got, want))
     return out
 
